@@ -1098,6 +1098,9 @@ def classify(case, desc):
     if case.get("task") == "condense" and case.get("n") == 0 and \
             "Empty data object" in desc:
         return "C08-condense-empty"
+    if case.get("kind") == "tdms2rtdc" and \
+            "negative values stored as 0: uint32 feature" in desc:
+        return "C08-tdms-negative-flmax"
     return None
 
 
@@ -1292,7 +1295,8 @@ def chunk_check(run, count):
     with h5py.File(path, "w") as h5:
         for i, (shape, chunks) in enumerate(cases):
             ds = h5.create_dataset("d%d" % i, shape=tuple(shape), dtype="u1",
-                                   chunks=tuple(chunks))
+                                   chunks=tuple(chunks),
+                                   maxshape=tuple(None for _ in shape))
             boxes = [[x for s in sl for x in (s.start, s.stop)]
                      for sl in ds.iter_chunks()]
             impl.append(boxes)
@@ -1352,12 +1356,24 @@ def tdms_check(run):
                               path_rtdc=pathlib.Path(out))
                 if sha256(t) != sha0:
                     fail = "tdms input modified"
+                # this untagged build brands its output "dclab 0.0..." which
+                # the reader refuses as too old: re-brand before reading
+                import h5py
+                with h5py.File(out, "a") as hx:
+                    hx.attrs["setup:software version"] = "verif | " + str(
+                        hx.attrs.get("setup:software version", ""))
                 with dclab.new_dataset(t) as ds, dclab.new_dataset(out) as dr:
                     clicommon.skip_empty_image_events(ds, True, True)
                     idx = np.where(ds.filter.all)[0]
+                    feats = list(ds.features_innate)
+                    # the fixtures carry truncated videos/contours: the export
+                    # stops at the shortest feature
+                    shortest = min([len(ds)] + [len(ds[f]) for f in feats
+                                                if f in ("image", "mask",
+                                                         "contour")])
+                    idx = idx[idx < shortest]
                     if len(dr) != len(idx):
                         fail = "event count %d vs %d" % (len(dr), len(idx))
-                    feats = list(ds.features_innate)
                     for f in feats:
                         if fail:
                             break
@@ -1377,8 +1393,14 @@ def tdms_check(run):
                                     break
                         else:
                             a = np.asarray(ds[f][:])[idx]
-                            if not np.array_equal(a, dr[f][:], equal_nan=True):
+                            b = np.asarray(dr[f][:])
+                            if not np.array_equal(a, b, equal_nan=True):
                                 fail = "feature %s differs" % f
+                                bad = a != b
+                                if re.match("^fl[123]_max$", f) and \
+                                        np.all(a[bad] < 0) and np.all(b[bad] == 0):
+                                    fail += (" (negative values stored as 0: "
+                                             "uint32 feature)")
             except Exception as e:
                 fail = "tdms2rtdc raised %r" % (e,)
             run.record_case(case, True, sample=False)
